@@ -1,0 +1,40 @@
+//go:build verif
+
+package sio
+
+import (
+	"time"
+
+	eioparser "github.com/karagenc/socket.io-go/engine.io/parser"
+	"github.com/karagenc/socket.io-go/internal/verifhook"
+)
+
+// VerifPacketQueue exposes the unexported packetQueue to the verification harness.
+type VerifPacketQueue struct{ pq *packetQueue }
+
+func VerifNewPacketQueue() *VerifPacketQueue { return &VerifPacketQueue{pq: newPacketQueue()} }
+
+func (q *VerifPacketQueue) Poll() (packets []*eioparser.Packet, ok, closed bool) {
+	return q.pq.poll()
+}
+func (q *VerifPacketQueue) Add(packets ...*eioparser.Packet) { q.pq.add(packets...) }
+func (q *VerifPacketQueue) Get() []*eioparser.Packet         { return q.pq.get() }
+func (q *VerifPacketQueue) Reset()                           { q.pq.reset() }
+func (q *VerifPacketQueue) Close()                           { q.pq.close() }
+func (q *VerifPacketQueue) WaitForDrain(timeout time.Duration) (timedout bool) {
+	return q.pq.waitForDrain(timeout)
+}
+
+func (q *VerifPacketQueue) Len() int {
+	q.pq.mu.Lock()
+	defer q.pq.mu.Unlock()
+	return len(q.pq.packets)
+}
+
+// ReadyLen, CloseLen, ResetLen: number of tokens pending in the signalling channels.
+func (q *VerifPacketQueue) ReadyLen() int { return len(q.pq.ready) }
+func (q *VerifPacketQueue) CloseLen() int { return len(q.pq._close) }
+func (q *VerifPacketQueue) ResetLen() int { return len(q.pq._reset) }
+
+// VerifSetYieldHandler installs the handler called at every verifhook.Yield point.
+func VerifSetYieldHandler(fn func(point string)) { verifhook.SetHandler(fn) }
